@@ -241,7 +241,25 @@ impl<'a> YamlEmitter<'a> {
                 Ok(())
             }
             Yaml::Value(Scalar::Integer(v)) => Ok(write!(self.writer, "{v}")?),
-            Yaml::Value(Scalar::FloatingPoint(ref v)) => Ok(write!(self.writer, "{v}")?),
+            Yaml::Value(Scalar::FloatingPoint(ref v)) => {
+                // Write the float so that it loads back as a float: YAML spellings for the
+                // non-finite values, and a fractional part for integral values.
+                let f = v.into_inner();
+                if f.is_nan() {
+                    self.writer.write_str(".nan")?;
+                } else if f.is_infinite() {
+                    self.writer
+                        .write_str(if f > 0.0 { ".inf" } else { "-.inf" })?;
+                } else {
+                    let repr = format!("{f}");
+                    if repr.contains(['.', 'e', 'E']) {
+                        self.writer.write_str(&repr)?;
+                    } else {
+                        write!(self.writer, "{repr}.0")?;
+                    }
+                }
+                Ok(())
+            }
             Yaml::Value(Scalar::Null) | Yaml::BadValue => Ok(write!(self.writer, "~")?),
             Yaml::Representation(ref v, style, ref tag) => {
                 if let Some(Tag {
@@ -430,6 +448,11 @@ fn need_quotes(string: &str) -> bool {
         || string.starts_with("0x")
         || string.parse::<i64>().is_ok()
         || string.parse::<f64>().is_ok()
+        // Anything the loader would not read back as a string (e.g. `0o17`, `+.inf`).
+        || !matches!(
+            Scalar::parse_from_cow(std::borrow::Cow::Borrowed(string)),
+            Scalar::String(_)
+        )
 }
 
 #[cfg(test)]
